@@ -118,7 +118,7 @@ def run(chk, tier, seed):
         nthreads += len(progs)
         sizes[len(progs)] = sizes.get(len(progs), 0) + 1
         for name, o in (("concurrent", par), ("hooked concurrent", hk)):
-            if o.startswith("HANG") or o in ("TIMEOUT", "MISSING", "ABORT") or o.startswith("THREAD-DIED"):
+            if o.startswith("HANG") or o in ("TIMEOUT", "MISSING") or o.startswith("ABORT") or o.startswith("THREAD-DIED"):
                 if name == "hooked concurrent" and not hook_bin:
                     continue
                 chk.violations.append(("%d threads creating and using connections do not complete (%s run): %s" % (len(progs), name, o[:120]), {"harness_line": line, "programs": progs}))
